@@ -48,9 +48,9 @@ PROPS["C17"] = dict(
     level_note=("hand-written models (Model/VPTree.lean, Model/GeodProj.lean, Model/IntersectFix.lean); no tables to regenerate (gens = []): the tie to the source is the "
                 "in-process correspondence run (ASan+UBSan) on the real tree dumped through Save, the kernel values of the real Geodesic object and the private helpers of "
                 "Intersect (-fno-access-control). "
-                "Open findings on the unchanged tree (known_findings.json): F12b Load accepts shared children (exponential Search), F24 AzimuthalEquidistant rk = inf at the centre, "
-                 "F25/F26 Geodesic::Inverse NaN on prolate ellipsoids / 0.1 mm error near the equatorial conjugate threshold (C02 class, seen through the oracles), "
-                 "F27 Intersect does not recognise some exactly coincident lines (c = 0, non-converged Newton), F28 Intersect::All lists an intersection twice"),
+                "Open findings on the unchanged tree (known_findings.json): F57 Intersect does not recognise some exactly coincident lines (c = 0, non-converged Newton), "
+                "F59 Intersect::Next not minimal for nearly parallel lines on a prolate ellipsoid (series solver); repaired since the first build: F53 (shared children, 90dea91 — "
+                "now part of the Load model), F54, F55, F56, F58, F60"),
     technique=("Lean 4 proof about the executable model of the vantage-point-tree search (induction over fuel with ghost trees, insertion-sort / k-best algebra, omega) and over ℝ "
                "for the projection wrappers (ring / linear_combination / Complex.arg) + exact correspondence of the model against the implementation + property-level oracles"),
     assumptions=["the geodesic kernel (Geodesic / GeodesicExact Inverse, Direct, Line) is trusted here (C01–C03)",
